@@ -173,6 +173,9 @@ pub struct DumpScn {
     /// ManifestPack::new over a reader covering the whole file) and read through whatever opens
     #[serde(default)]
     pub direct: bool,
+    /// read only the entries [from, to) of every index (stores of tens of thousands of entries under a damage sweep)
+    #[serde(default)]
+    pub entry_window: Option<(u32, u32)>,
 }
 
 #[derive(Deserialize, Clone)]
@@ -255,7 +258,11 @@ pub fn dump_value(c: &jbk::reader::Container, s: &DumpScn) -> J {
             };
             let n = index.count().into_u32();
             let mut es = vec![];
-            for i in 0..std::cmp::min(n, 100_000) {
+            let (from, to) = match s.entry_window {
+                Some((a, b)) => (std::cmp::min(a, n), std::cmp::min(b, n)),
+                None => (0, std::cmp::min(n, 100_000)),
+            };
+            for i in from..to {
                 match index.get_entry(&builder, jbk::EntryIdx::from(i)) {
                     Ok(Some(e)) => match entries::entry_json(&e, &s.props, &vnames) {
                         Ok(j) => es.push(j),
@@ -266,7 +273,7 @@ pub fn dump_value(c: &jbk::reader::Container, s: &DumpScn) -> J {
                 }
             }
             Ok(
-                json!({"name": name, "res": "ok", "count": n, "offset": index.offset().into_u32(), "entries": es}),
+                json!({"name": name, "res": "ok", "count": n, "offset": index.offset().into_u32(), "entries": es, "entriesFrom": from}),
             )
         });
         idxs.push(match r {
